@@ -180,6 +180,7 @@ fn run_rust(c: &Cfg, input: &[u8]) -> Result<Vec<u8>, String> {
             &mut nop,
         );
         out.extend_from_slice(&buf[..out_off]);
+        let _ = brotli::enc::encode::verif_trace::take();
         if !r {
             return Err("STREAM-FALSE".to_string());
         }
@@ -215,6 +216,10 @@ fn run_history(c: &Cfg, input: &[u8], script: &str, outchunk: usize) -> Result<V
         w.write_all(input).map_err(|e| format!("write: {}", e))?;
         return Ok(w.into_inner());
     }
+    // the trace hook panics after 65536 back-end invocations within one stream call: a stream call
+    // that loops inside the encoder becomes a PANIC outcome instead of a hang
+    brotli::enc::encode::verif_trace::enable();
+    let _ = brotli::enc::encode::verif_trace::take();
     let mut s = BrotliEncoderStateStruct::new(StandardAlloc::default());
     s.params.quality = c.q;
     s.params.lgwin = c.lgwin;
@@ -273,6 +278,7 @@ fn run_history(c: &Cfg, input: &[u8], script: &str, outchunk: usize) -> Result<V
             let mut total = None;
             let r = s.compress_stream(op, &mut avail_in, data, &mut in_off, &mut avail_out, &mut buf[..], &mut out_off, &mut total, &mut nop);
             out.extend_from_slice(&buf[..out_off]);
+            let _ = brotli::enc::encode::verif_trace::take();
             if !r {
                 return Err(format!("STREAM-FALSE({})", it));
             }
@@ -334,6 +340,7 @@ fn run_ffi(c: &Cfg, input: &[u8]) -> Result<Vec<u8>, String> {
             );
             let produced = buf.len() - avail_out;
             out.extend_from_slice(&buf[..produced]);
+            let _ = brotli::enc::encode::verif_trace::take();
             if r == 0 {
                 res = Err("STREAM-FALSE".to_string());
                 break;
@@ -468,6 +475,8 @@ fn parse_cfg(t: &[&str]) -> Option<(Cfg, Vec<u8>)> {
 }
 
 fn f_encode(t: &[&str]) -> String {
+    // once enabled the thread-local trace keeps recording: empty it, its limit is per stream call
+    let _ = brotli::enc::encode::verif_trace::take();
     // H lines carry two more fields: the call history and the output chunk size
     let (history, t) = if t[0] == "H" && t.len() == 13 {
         (Some((t[11].to_string(), t[12].parse::<usize>().unwrap_or(0))), &t[..11])
